@@ -13,7 +13,7 @@ import PnVerif.Gen.Consts
 
   Core Lean only.  Error numerals come from Gen/Consts.lean (regenerated from pnetcdf.h).
 -/
-namespace PnVerif.Spec
+namespace PnVerif.Spec.Dataset
 open PnVerif.Gen.Consts
 
 structure SAtt where
@@ -276,4 +276,4 @@ def World.load (w : World) (vi : Nat) (lin : List Nat) : List (Option Int) :=
   | none => []
   | some v => lin.map (fun i => (v.data.getD i none))
 
-end PnVerif.Spec
+end PnVerif.Spec.Dataset
